@@ -9,16 +9,19 @@ package inmemory
 //@ func (*inMemoryPersistence).expectAndWrite
 //@   returns (err)
 //@   let mu      := fieldref(p, 0)
-//@   let curHas  := old(logID in p.checkpoints)
-//@   let curVal  := old(p.checkpoints[logID])
+//@   // the state the decision is made on is the state at the (last) acquisition of mu: mid_has / mid_val.
+//@   // Every acquisition is an interference point, so a check under one critical section and a write under
+//@   // another are NOT related by this contract -- compare-and-set must be one critical section.
+//@   let curHas  := mid_has[logID]
+//@   let curVal  := mid_val[logID]
 //@   let expHas  := old != nil
 //@   let expVal  := old(deref(old))
 //@   requires p != nil && p.checkpoints != nil && !wl[mu] && rl[mu] == 0
-//@   modifies mapof(p.checkpoints), wl, rl
+//@   modifies mapof(p.checkpoints), wl, rl, mid_has, mid_val
 //@   // compare-and-set: succeeds iff the current value equals the expected snapshot (both absent, or both present and deeply equal)
 //@   ensures[C05.cas] err == nil <==> (expHas == curHas && (expHas ==> expVal == curVal))
-//@   ensures[C05.wr,C12.im]  err == nil ==> mapHas(p.checkpoints) == old(mapHas(p.checkpoints))[logID := true] && mapVal(p.checkpoints) == old(mapVal(p.checkpoints))[logID := new]
-//@   ensures[C03.im,C05.wr]  err != nil ==> mapHas(p.checkpoints) == old(mapHas(p.checkpoints)) && mapVal(p.checkpoints) == old(mapVal(p.checkpoints))
+//@   ensures[C05.wr,C12.im]  err == nil ==> mapHas(p.checkpoints) == mid_has[logID := true] && mapVal(p.checkpoints) == mid_val[logID := new]
+//@   ensures[C03.im,C05.wr]  err != nil ==> mapHas(p.checkpoints) == mid_has && mapVal(p.checkpoints) == mid_val
 //@   ensures[C05.lock] wl == old(wl) && rl == old(rl)
 
 //@ func verifInterfere
